@@ -1,4 +1,5 @@
 import PnVerif.Lemmas.Access
+import PnVerif.Lemmas.Contig
 /-
   C01 unit driver: the model's `strideFlatten` / `firstOffset` and the specification's enumeration
   on the same lines as harness/c01_unit.c.
@@ -32,6 +33,24 @@ def step (line : String) : String :=
     let start := (xs.drop n).take n
     let v : VarLay := { begin := begin.toNat?.getD 0, xsz := xsz.toNat?.getD 1, shape := shape, isRec := isrec == "1", recsize := recsize.toNat?.getD 0 }
     s!"{firstOffset v start} {elemOff v start}"
+  | "RC" :: isrec :: nrv :: nd :: rest =>
+    -- model answer, and whether the addressed elements REALLY are one run (specification side)
+    let n := nd.toNat?.getD 0
+    let xs := nats rest
+    let shape := xs.take n
+    let start := (xs.drop n).take n
+    let count := (xs.drop (2 * n)).take n
+    let isr := isrec == "1"
+    let numrv := nrv.toNat?.getD 0
+    let m := isReqContig isr numrv shape count
+    -- layout for the oracle: element size 2; a record = this variable's record (+ 6 bytes of other record variables if nrv > 1)
+    let inner := prod (shape.drop 1)
+    let v : VarLay := { begin := 0, xsz := 2, shape := shape, isRec := isr, recsize := inner * 2 + (if numrv > 1 then 6 else 0) }
+    let offs := (enumIdx start count (ones n)).map (elemOff v)
+    let really := match offs with
+      | [] => true
+      | o :: _ => offs == consec o offs.length 2
+    s!"{if m then 1 else 0} {if really then 1 else 0}"
   | _ => "bad-op"
 
 partial def loop (h : IO.FS.Stream) (out : IO.FS.Stream) : IO Unit := do
